@@ -41,6 +41,7 @@ func NewBase64Decoder() Decoder {
 }
 
 func (dec *base64Decoder) Init(reader io.Reader) error {
+	verifYield("decoder.Init")
 	dec.reader = &base64Padder{Reader: reader}
 	dec.readAnything = false
 	dec.finished = false
@@ -48,6 +49,7 @@ func (dec *base64Decoder) Init(reader io.Reader) error {
 }
 
 func (dec *base64Decoder) Decode() (*CandidateNode, error) {
+	verifYield("decoder.Decode")
 	if dec.finished {
 		return nil, io.EOF
 	}
